@@ -80,23 +80,25 @@ class OpAdd(Op):
     ) -> Union[MutableSequence[object], MutableMapping[str, object]]:
         """Apply this patch operation to _data_."""
         parent, obj = self.path.resolve_parent(data)
+        # Insert a copy, so later operations can't modify this patch.
+        value = copy.deepcopy(self.value)
         if parent is None:
             # Replace the root object.
             # The following op, if any, will raise a JSONPatchError if needed.
-            return self.value  # type: ignore
+            return value  # type: ignore
 
         target = self.path.parts[-1]
         if isinstance(parent, MutableSequence):
             if obj is UNDEFINED:
                 # RFC 6902: "-" or an index equal to the array's length appends.
                 if target == "-" or target == len(parent):
-                    parent.append(self.value)
+                    parent.append(value)
                 else:
                     raise JSONPatchError("index out of range")
             else:
-                parent.insert(_array_index(target), self.value)
+                parent.insert(_array_index(target), value)
         elif isinstance(parent, MutableMapping):
-            parent[_member_name(parent, target)] = self.value
+            parent[_member_name(parent, target)] = value
         else:
             raise JSONPatchError(
                 f"unexpected operation on {parent.__class__.__name__!r}"
@@ -126,22 +128,24 @@ class OpAddNe(OpAdd):
     ) -> Union[MutableSequence[object], MutableMapping[str, object]]:
         """Apply this patch operation to _data_."""
         parent, obj = self.path.resolve_parent(data)
+        # Insert a copy, so later operations can't modify this patch.
+        value = copy.deepcopy(self.value)
         if parent is None:
             # Replace the root object.
             # The following op, if any, will raise a JSONPatchError if needed.
-            return self.value  # type: ignore
+            return value  # type: ignore
 
         target = self.path.parts[-1]
         if isinstance(parent, MutableSequence):
             if obj is UNDEFINED:
-                parent.append(self.value)
+                parent.append(value)
             else:
-                parent.insert(_array_index(target), self.value)
+                parent.insert(_array_index(target), value)
         elif (
             isinstance(parent, MutableMapping)
             and _member_name(parent, target) not in parent
         ):
-            parent[_member_name(parent, target)] = self.value
+            parent[_member_name(parent, target)] = value
         return data
 
 
@@ -163,19 +167,21 @@ class OpAddAp(OpAdd):
     ) -> Union[MutableSequence[object], MutableMapping[str, object]]:
         """Apply this patch operation to _data_."""
         parent, obj = self.path.resolve_parent(data)
+        # Insert a copy, so later operations can't modify this patch.
+        value = copy.deepcopy(self.value)
         if parent is None:
             # Replace the root object.
             # The following op, if any, will raise a JSONPatchError if needed.
-            return self.value  # type: ignore
+            return value  # type: ignore
 
         target = self.path.parts[-1]
         if isinstance(parent, MutableSequence):
             if obj is UNDEFINED:
-                parent.append(self.value)
+                parent.append(value)
             else:
-                parent.insert(_array_index(target), self.value)
+                parent.insert(_array_index(target), value)
         elif isinstance(parent, MutableMapping):
-            parent[_member_name(parent, target)] = self.value
+            parent[_member_name(parent, target)] = value
         else:
             raise JSONPatchError(
                 f"unexpected operation on {parent.__class__.__name__!r}"
@@ -236,17 +242,19 @@ class OpReplace(Op):
     ) -> Union[MutableSequence[object], MutableMapping[str, object]]:
         """Apply this patch operation to _data_."""
         parent, obj = self.path.resolve_parent(data)
+        # Insert a copy, so later operations can't modify this patch.
+        value = copy.deepcopy(self.value)
         if parent is None:
-            return self.value  # type: ignore
+            return value  # type: ignore
 
         if isinstance(parent, MutableSequence):
             if obj is UNDEFINED:
                 raise JSONPatchError("can't replace nonexistent item")
-            parent[_array_index(self.path.parts[-1])] = self.value
+            parent[_array_index(self.path.parts[-1])] = value
         elif isinstance(parent, MutableMapping):
             if obj is UNDEFINED:
                 raise JSONPatchError("can't replace nonexistent property")
-            parent[_member_name(parent, self.path.parts[-1])] = self.value
+            parent[_member_name(parent, self.path.parts[-1])] = value
         else:
             raise JSONPatchError(
                 f"unexpected operation on {parent.__class__.__name__!r}"
